@@ -35,9 +35,46 @@ var swaps = map[token.Token][]token.Token{
 	token.AND: {token.OR}, token.OR: {token.AND, token.XOR}, token.XOR: {token.OR}, token.MUL: {token.QUO}, token.QUO: {token.MUL}, token.REM: {token.QUO},
 }
 
+// constNext maps a constant's name to the next constant declared in the same const ( ... ) group (cyclic): the "wrong
+// sibling constant" slip (MType, CID, revision, version, modulation names ...).
+var constNext = map[string]string{}
+
+func collectConsts(root string) {
+	filepath.Walk(root, func(p string, info os.FileInfo, err error) error {
+		if err != nil || info.IsDir() || !strings.HasSuffix(p, ".go") || strings.HasSuffix(p, "_test.go") || strings.Contains(p, "/.git/") {
+			return nil
+		}
+		f, err := parser.ParseFile(token.NewFileSet(), p, nil, 0)
+		if err != nil {
+			return nil
+		}
+		for _, d := range f.Decls {
+			gd, ok := d.(*ast.GenDecl)
+			if !ok || gd.Tok != token.CONST || len(gd.Specs) < 2 {
+				continue
+			}
+			var names []string
+			for _, sp := range gd.Specs {
+				for _, n := range sp.(*ast.ValueSpec).Names {
+					if n.Name != "_" {
+						names = append(names, n.Name)
+					}
+				}
+			}
+			for i, n := range names {
+				if len(names) > 1 {
+					constNext[n] = names[(i+1)%len(names)]
+				}
+			}
+		}
+		return nil
+	})
+}
+
 func main() {
 	root := os.Args[1]
 	enc := json.NewEncoder(os.Stdout)
+	collectConsts(root)
 	filepath.Walk(root, func(p string, info os.FileInfo, err error) error {
 		if err != nil || info.IsDir() || !strings.HasSuffix(p, ".go") || strings.HasSuffix(p, "_test.go") {
 			return nil
@@ -60,6 +97,38 @@ func main() {
 		emit := func(s, e int, nw, kind string, pos token.Pos) {
 			enc.Encode(mut{File: rel, Start: s, End: e, Old: string(src[s:e]), New: nw, Kind: kind, Line: fset.Position(pos).Line, Func: fn})
 		}
+		text := func(n ast.Node) string { return string(src[off(n.Pos()):off(n.End())]) }
+		extra := func(n ast.Node) {
+			switch x := n.(type) {
+			case *ast.Ident:
+				if nx, ok := constNext[x.Name]; ok && x.Obj == nil {
+					emit(off(x.Pos()), off(x.End()), nx, "constswap", x.Pos())
+				} else if ok && x.Obj != nil && x.Obj.Kind == ast.Con && x.Obj.Pos() != x.Pos() {
+					emit(off(x.Pos()), off(x.End()), nx, "constswap", x.Pos())
+				}
+			case *ast.CompositeLit:
+				for i := 0; i+1 < len(x.Elts); i++ {
+					a, b := x.Elts[i], x.Elts[i+1]
+					if ka, ok := a.(*ast.KeyValueExpr); ok {
+						kb, ok := b.(*ast.KeyValueExpr)
+						if !ok {
+							continue
+						}
+						a, b = ka.Value, kb.Value
+					}
+					if text(a) != text(b) {
+						emit(off(a.Pos()), off(b.End()), text(b)+string(src[off(a.End()):off(b.Pos())])+text(a), "tableswap", a.Pos())
+					}
+				}
+			case *ast.CallExpr:
+				for i := 0; i+1 < len(x.Args); i++ {
+					a, b := x.Args[i], x.Args[i+1]
+					if text(a) != text(b) {
+						emit(off(a.Pos()), off(b.End()), text(b)+string(src[off(a.End()):off(b.Pos())])+text(a), "argswap", a.Pos())
+					}
+				}
+			}
+		}
 		for _, d := range f.Decls {
 			fd, ok := d.(*ast.FuncDecl)
 			if !ok || fd.Body == nil {
@@ -67,6 +136,9 @@ func main() {
 				if gd, ok := d.(*ast.GenDecl); ok && gd.Tok == token.VAR {
 					fn = "(var)"
 					ast.Inspect(gd, func(n ast.Node) bool {
+						if n != nil {
+							extra(n)
+						}
 						if bl, ok := n.(*ast.BasicLit); ok && bl.Kind == token.INT {
 							if v, err := strconv.ParseInt(bl.Value, 0, 64); err == nil {
 								emit(off(bl.Pos()), off(bl.End()), fmt.Sprint(v+1), "lit+1", bl.Pos())
@@ -82,6 +154,9 @@ func main() {
 				fn = strings.TrimPrefix(string(src[off(fd.Recv.List[0].Type.Pos()):off(fd.Recv.List[0].Type.End())]), "*") + "." + fn
 			}
 			ast.Inspect(fd.Body, func(n ast.Node) bool {
+				if n != nil {
+					extra(n)
+				}
 				switch x := n.(type) {
 				case *ast.BinaryExpr:
 					for _, t := range swaps[x.Op] {
@@ -114,6 +189,9 @@ func main() {
 					if x.Init == nil && len(x.Body.List) > 0 {
 						if _, ok := x.Body.List[len(x.Body.List)-1].(*ast.ReturnStmt); ok {
 							emit(off(x.Cond.Pos()), off(x.Cond.End()), "false", "guard", x.Cond.Pos())
+						} else if x.Else == nil {
+							// a whole conditional block dropped
+							emit(off(x.Cond.Pos()), off(x.Cond.End()), "false", "delif", x.Cond.Pos())
 						}
 					}
 				case *ast.ExprStmt:
